@@ -1,13 +1,13 @@
 #!/bin/sh
 # intake every finished sub-agent result under /tmp/wt/Cxx/_seed that is not yet in /verif/seeded
 cd "$(dirname "$0")/.."
-for d in /tmp/wt/C*/_seed /tmp/wt2/C*/_seed /tmp/wt3/C*/_seed /tmp/wt4/C*/_seed /tmp/wt5/C*/_seed /tmp/wt6/C*/_seed /tmp/wt7/C*/_seed /tmp/wt8/C*/_seed /tmp/wt9/C*/_seed /tmp/wt10/C*/_seed; do
+for d in /tmp/wt/C*/_seed /tmp/wt2/C*/_seed /tmp/wt3/C*/_seed /tmp/wt4/C*/_seed /tmp/wt5/C*/_seed /tmp/wt6/C*/_seed /tmp/wt7/C*/_seed /tmp/wt8/C*/_seed /tmp/wt9/C*/_seed /tmp/wt10/C*/_seed /tmp/wt11/C*/_seed; do
   [ -f "$d/notes.md" ] || continue
   p=$(basename $(dirname $d))
   for L in A B; do
     [ -f "$d/$L.diff" ] || continue
     S=$L
-    case $d in /tmp/wt2/*) S=$(echo $L | tr AB CD);; /tmp/wt3/*) S=$(echo $L | tr AB EF);; /tmp/wt4/*) S=$(echo $L | tr AB GH);; /tmp/wt5/*) S=$(echo $L | tr AB IJ);; /tmp/wt6/*) S=$(echo $L | tr AB KL);; /tmp/wt7/*) S=$(echo $L | tr AB MN);; /tmp/wt8/*) S=$(echo $L | tr AB OP);; /tmp/wt9/*) S=$(echo $L | tr AB QR);; /tmp/wt10/*) S=$(echo $L | tr AB ST);; esac
+    case $d in /tmp/wt2/*) S=$(echo $L | tr AB CD);; /tmp/wt3/*) S=$(echo $L | tr AB EF);; /tmp/wt4/*) S=$(echo $L | tr AB GH);; /tmp/wt5/*) S=$(echo $L | tr AB IJ);; /tmp/wt6/*) S=$(echo $L | tr AB KL);; /tmp/wt7/*) S=$(echo $L | tr AB MN);; /tmp/wt8/*) S=$(echo $L | tr AB OP);; /tmp/wt9/*) S=$(echo $L | tr AB QR);; /tmp/wt10/*) S=$(echo $L | tr AB ST);; /tmp/wt11/*) S=$(echo $L | tr AB UV);; esac
     [ -f "seeded/$p-$S/meta.json" ] && [ -z "$FORCE" ] && continue
     echo "=== $p-$S"
     tools/seedintake.py $d $p $L --as $S --props all 2>&1 | grep -E "^(C[0-9]+: (VIOLATION|inconclusive|exit)|CAUGHT-BY|kept as|NOT CONFIRMED| \"confirmed\")"
